@@ -39,6 +39,27 @@ where
     Some(lo)
 }
 
+#[derive(Clone, Copy)]
+pub enum SavedPx {
+    Pyth(PythPx),
+    Swb(SwbPx),
+    None,
+}
+pub fn save_price(w: &World, b: usize) -> SavedPx {
+    match &w.banks[b].oracle {
+        OracleD::Pyth(k) | OracleD::Staked { oracle: k, .. } => SavedPx::Pyth(w.pyth[k]),
+        OracleD::Swb(k) => SavedPx::Swb(w.swb[k]),
+        _ => SavedPx::None,
+    }
+}
+pub fn restore_price(w: &mut World, b: usize, s: SavedPx) {
+    let now = w.chain.now();
+    match (w.banks[b].oracle.clone(), s) {
+        (OracleD::Pyth(k), SavedPx::Pyth(p)) | (OracleD::Staked { oracle: k, .. }, SavedPx::Pyth(p)) => w.set_pyth(&k, PythPx { publish_time: now, ..p }),
+        (OracleD::Swb(k), SavedPx::Swb(p)) => w.set_swb(&k, SwbPx { last_update: now, ..p }),
+        _ => {}
+    }
+}
 pub fn scale_price(w: &mut World, b: usize, f: f64) {
     match w.banks[b].oracle.clone() {
         OracleD::Pyth(k) | OracleD::Staked { oracle: k, .. } => {
@@ -558,4 +579,61 @@ pub async fn portfolio(w: &mut World, m: &mut Mon, r: &mut R, g: usize, lender: 
         }
     }
     m.r.count("scen.portfolios");
+}
+
+/// Sunset of a bank (deleverage wind-down): the admin allows token-less repayments, the risk
+/// admin writes off the borrower's debt inside a deleverage bracket, the bank is marked complete,
+/// lenders withdraw what is left and the risk admin purges the remaining deposits.
+pub async fn sunset(w: &mut World, m: &mut Mon, r: &mut R, lev: &Lev, g: usize, lender: usize) {
+    let gk = w.groups[g].key;
+    let admin = clone_kp(&w.groups[g].admin);
+    let risk = clone_kp(&w.groups[g].risk);
+    let db = lev.db;
+    let bk = w.banks[db].key;
+    let mut o = BankConfigOpt::default();
+    o.tokenless_repayments_allowed = Some(true);
+    o.operational_state = Some(BankOperationalState::ReduceOnly);
+    let i = ix::configure_bank(gk, admin.pubkey(), bk, o);
+    if !w.exec(m, &[i], &[&admin]).await.ok() {
+        m.r.count("scen.sunset_configure_rejected");
+        return;
+    }
+    let acct = w.accts[lev.acct].key;
+    if !w.shadow.contains_key(&ix::liq_record_key(&acct)) {
+        let i = ix::init_liq_record(acct, risk.pubkey());
+        let _ = w.exec(m, &[i], &[&risk]).await;
+    }
+    // token account of the risk admin (never debited by a token-less repayment)
+    let md = w.banks[db].mint;
+    let ta_d = w.new_token_account(md, risk.pubkey(), 1 << 30).await;
+    let risk_metas = w.risk_metas(lev.acct, None, None);
+    let end_metas = w.risk_metas(lev.acct, None, Some(db));
+    let all = r.gen_bool(0.8);
+    let ixs = vec![
+        ix::start_deleverage(gk, acct, risk.pubkey(), risk_metas),
+        ix::repay(gk, acct, risk.pubkey(), bk, ta_d, w.token_program_of_bank(db), if all { 0 } else { lev.borrowed / 2 }, if all { Some(true) } else { None }, w.mint_prefix(db)),
+        ix::end_deleverage(gk, acct, risk.pubkey(), if all { end_metas } else { w.risk_metas(lev.acct, None, None) }),
+    ];
+    let o = w.exec(m, &ixs, &[&risk]).await;
+    m.r.count(if o.ok() { "scen.sunset_tokenless_repay_committed" } else { "scen.sunset_tokenless_repay_rejected" });
+    // mark complete (other borrowers may remain: the risk admin is trusted to know)
+    let signer = if r.gen_bool(0.85) { clone_kp(&risk) } else { w.user_kp(0) };
+    let i = ix::force_tokenless_complete(gk, signer.pubkey(), bk);
+    let _ = w.exec(m, &[i], &[&signer]).await;
+    // a lender withdraws, then the risk admin purges what remains of the lender's deposit
+    let lk = w.auth_of(lender);
+    let lt = w.ta_of(lender, db);
+    let (dep, _) = {
+        let acc = w.acct(lender);
+        let q = BankQ::of(&w.bank(db));
+        acc.lending_account.balances.iter().find(|b| b.active != 0 && b.bank_pk == bk).map(|b| (to_u64_floor(&(fx(&b.asset_shares.value) * &q.asv)).unwrap_or(0), 0)).unwrap_or((0, 0))
+    };
+    if dep > 0 {
+        let i = w.ix_withdraw(lender, db, lk.pubkey(), lt, dep / 3 + 1, None);
+        let _ = w.exec(m, &[i], &[&lk]).await;
+    }
+    let who = if r.gen_bool(0.85) { clone_kp(&risk) } else { clone_kp(&admin) };
+    let i = ix::purge_delev_balance(gk, w.accts[lender].key, who.pubkey(), bk);
+    let o = w.exec(m, &[i], &[&who]).await;
+    m.r.count(if o.ok() { "scen.sunset_purge_committed" } else { "scen.sunset_purge_rejected" });
 }
